@@ -246,11 +246,14 @@ class DerivedTypeArgumentsTransformation(Transformation):
 
         kwarguments = []
         for kernel_argname, caller_arg in call.kwarguments:
-            if kernel_argname in expansion_map:
-                expanded_arguments = cls._expand_call_argument(caller_arg, expansion_map[kernel_argname])
+            # Keyword names are case-insensitive, whereas the lookup of a string in
+            # the expansion map (keyed by the dummy argument symbols) only matches lower-case
+            argname = kernel_argname.lower()
+            if argname in expansion_map:
+                expanded_arguments = cls._expand_call_argument(caller_arg, expansion_map[argname])
                 kwarguments += [
                     (cls._expand_kernel_variable(kernel_arg).name, caller_arg)
-                    for kernel_arg, caller_arg in zip(expansion_map[kernel_argname], expanded_arguments)
+                    for kernel_arg, caller_arg in zip(expansion_map[argname], expanded_arguments)
                 ]
             else:
                 kwarguments += [(kernel_argname, caller_arg)]
